@@ -6,15 +6,17 @@ REV=""
 if [ "$1" = "-R" ]; then REV="-R"; shift; fi
 PATCH="$(readlink -f "$1")"; shift
 TIER="${TIER:-quick}"
-cd /repo || exit 2
-if [ -n "$(git status --porcelain --untracked-files=no)" ]; then echo "/repo not clean" >&2; exit 2; fi
+REPO="${JV_REPO:-/repo}"
+VROOT="$(cd "$(dirname "$0")/.." && pwd)"
+cd "$REPO" || exit 2
+if [ -n "$(git status --porcelain --untracked-files=no)" ]; then echo "$REPO not clean" >&2; exit 2; fi
 if ! git apply $REV "$PATCH"; then echo "patch does not apply" >&2; exit 2; fi
 # evidence written while a patch is applied must not replace the evidence of the unchanged tree
 EVBAK=$(mktemp -d /tmp/jv-evbak.XXXXXX)
-cp -a /verif/evidence/. "$EVBAK"/ 2>/dev/null
-trap 'git -C /repo checkout -- . ; git -C /repo clean -fdq src; rm -rf /verif/evidence; mkdir -p /verif/evidence; cp -a "$EVBAK"/. /verif/evidence/ 2>/dev/null; rm -rf "$EVBAK"' EXIT
+cp -a "$VROOT"/evidence/. "$EVBAK"/ 2>/dev/null
+trap 'git -C "$REPO" checkout -- . ; git -C "$REPO" clean -fdq src; rm -rf "$VROOT"/evidence; mkdir -p "$VROOT"/evidence; cp -a "$EVBAK"/. "$VROOT"/evidence/ 2>/dev/null; rm -rf "$EVBAK"' EXIT
 for id in "$@"; do
-  out=$(cd /verif && VERIF_SEED="${VERIF_SEED:-1}" ./check "$id" "$TIER" 2>&1)
+  out=$(cd "$VROOT" && VERIF_SEED="${VERIF_SEED:-1}" ./check "$id" "$TIER" 2>&1)
   code=$?
   echo "$id exit=$code $(echo "$out" | grep -c '^VIOLATION') violation line(s)"
   echo "$out" | grep -A1 '^VIOLATION' | grep -v '^VIOLATION' | grep -v '^--' | cut -c1-220 | sort | uniq -c | sort -rn | head -3
